@@ -87,6 +87,7 @@ func init() {
 	verifhook.InWriteTxnFn = hookInWriteTxn
 	verifhook.PickFn = hookPick
 	verifhook.ExpiredFn = hookExpired
+	verifhook.PreferDoneFn = func(ctx context.Context) bool { return cur.Load() != nil && ctx.Err() != nil }
 }
 
 func NewSim(t *Tape) *Sim {
